@@ -2342,3 +2342,24 @@ def skeletons():
             out.append(Skeleton("rulefam/%s/%s" % (rule.split(".")[-1], vid), text, tape=tape, fuel=600,
                                 meta={"rule": "rule:" + rule, "first_line": prelude(tape).count("\n") + 1}))
     return out
+
+
+# ---- string literals that the text-level layout stages (tab expansion, trailing blanks, blank-line limiting, line
+# wrapping) must leave alone; used by C01 (pipeline) only
+LAYOUT = {
+    "tab-in-string": 'x = "a\tb"\nprint(x, inp())\n',
+    "tab-in-bytes-and-raw": 'x = b"a\tb"\ny = r"c\td"\nprint(x, y, inp())\n',
+    "trailing-blanks-in-multiline": 'x = """line1   \nline2 \t\nline3"""\nprint(x, inp())\n',
+    "blank-lines-in-multiline": 'x = """a\n\n\n\n\nb\n"""\nprint(x, inp())\n',
+    "blank-lines-in-function-string": 'def main(v):\n    text = """a\n\n\n\nb   \n    c"""\n    return text, v\n\n\nprint(main(inp()))\n',
+    "multiline-fstring": 'def main(v):\n    return f"""v={v}   \n\n\n\n\tend"""\n\n\nprint(main(inp()))\n',
+    "tab-indented-code-with-tab-string": 'def main(v):\n\tx = "a\tb"\n\tif v > 0:\n\t\treturn x, v\n\treturn x\n\n\nprint(main(inp()))\n',
+    "string-at-end-of-file": 'print(inp())\nx = """tail\n\n\n\n"""\nprint(x)',
+    "long-line-with-tabs-in-string": 'def main(v):\n    return ["aaaaaaaaaaaaaaaaaaaa\tbbbbbbbbbbbbbbbbbbbbbbbbb", "cccccccccccccccccccccccc\tdddddddddddddddddddddd", "eeeeeeeeeeeeeeeeeee\tffffffffffffffffff", v]\n\n\nprint(main(inp()))\n',
+    "continuation-lines": 'x = "a" \\\n    "b\tc"\ny = ("d   "\n     "e")\nprint(x, y, inp())\n',
+}
+
+
+def layout_skeletons():
+    return [Skeleton("layout/%s" % k, prelude(2) + body, tape=2, fuel=300, meta={"rule": None, "first_line": prelude(2).count("\n") + 1})
+            for k, body in sorted(LAYOUT.items())]
